@@ -7,15 +7,22 @@ ENV = dict(os.environ, GOFLAGS="-mod=mod", GOPROXY="off", GOSUMDB="off", GOTOOLC
 def sh(cmd, cwd=None):
     p = subprocess.run(cmd, shell=True, cwd=cwd, env=ENV, stdout=subprocess.PIPE, stderr=subprocess.STDOUT)
     return p.returncode, p.stdout.decode(errors="replace")
+ROOT = os.environ.get("SEED_ROOT", "/tmp/seed")      # round 2: SEED_ROOT=/tmp/seed2 SEED_PREFIX=r2-
+PREFIX = os.environ.get("SEED_PREFIX", "")
 full = {}
-for f in glob.glob("/tmp/seed/full_*.jsonl"):
+for f in glob.glob(f"{ROOT}/full_*.jsonl") + glob.glob(f"{ROOT}/triage/*.json"):
     for l in open(f):
-        r = json.loads(l); full[r["seed"]] = r
+        if l.strip():
+            r = json.loads(l); full[r["seed"]] = r
 rc, st = sh("git -C /repo status --porcelain")
 assert st.strip() == "", "repo not clean: " + st
 rows = []
-for d in sorted(glob.glob("/tmp/seed/C*/out/[0-9]")):
+for d in sorted(glob.glob(f"{ROOT}/C*/out/[0-9]")):
     prop = d.split("/")[3]; k = d.split("/")[-1]; sid = f"{prop}-{k}"
+    v = full.get(sid, {})
+    if not (v.get("demo_on_head") == "pass" and v.get("demo_with_patch") == "fail" and v.get("suite_with_patch") == "pass"):
+        print("NOT CONFIRMED, not kept:", sid, v.get("demo_on_head"), v.get("demo_with_patch"), v.get("suite_with_patch")); continue
+    sid = PREFIX + sid
     dst = f"/verif/seeded/{sid}"
     os.makedirs(dst, exist_ok=True)
     shutil.copy(f"{d}/patch.diff", dst)
@@ -24,7 +31,6 @@ for d in sorted(glob.glob("/tmp/seed/C*/out/[0-9]")):
         # stored with a non-_test suffix so that it is never compiled from here
         shutil.copy(f"{d}/demo_test.go", f"{dst}/demo_test.go.txt")
     meta = json.load(open(f"{d}/meta.json"))
-    v = full.get(sid, {})
     # apply to /repo, run the check of the property, undo
     rc, o = sh(f"git -C /repo apply {dst}/patch.diff")
     if rc != 0:
@@ -42,6 +48,7 @@ for d in sorted(glob.glob("/tmp/seed/C*/out/[0-9]")):
         "confirmed_by_me": {
             "how": "tools/triage_seed.py in a scratch worktree of /repo HEAD (outside /repo and /verif): demonstration on HEAD, demonstration with the patch, full test-suite with the patch; then git -C /repo apply, ./check.sh <property> quick, git -C /repo checkout -- .",
             "demo_on_head": v.get("demo_on_head"), "demo_with_patch": v.get("demo_with_patch"), "suite_with_patch": v.get("suite_with_patch"),
+            "note": v.get("suite_note"),
         },
         "check_result_on_repo_with_patch": {"exit": rc, "rules_violated": rules},
         "detected": bool(rules),
@@ -50,5 +57,14 @@ for d in sorted(glob.glob("/tmp/seed/C*/out/[0-9]")):
     json.dump(out, open(f"{dst}/meta.json", "w"), indent=1)
     rows.append((sid, bool(rules), rules))
     print(sid, "DETECTED" if rules else "missed", rules)
-json.dump([{"seed": a, "detected": b, "rules": c} for a, b, c in rows], open("/verif/seeded/SUMMARY.json", "w"), indent=1)
+json.dump([{"seed": a, "detected": b, "rules": c} for a, b, c in rows], open(f"/verif/seeded/SUMMARY{'-' + PREFIX.rstrip('-') if PREFIX else ''}.json", "w"), indent=1)
 print(sum(1 for r in rows if r[1]), "/", len(rows))
+# register as patch witnesses of the thorough tier
+W = json.load(open("/verif/witnesses/witnesses.json"))
+have = {w.get("patch") for w in W}
+for sid, det, rules in rows:
+    rel = f"seeded/{sid}/patch.diff"
+    if det and rel not in have:
+        prop = re.search(r"(C\d\d)", sid).group(1)
+        W.append({"property": prop, "file": "", "expect": "", "patch": rel, "note": f"seeded change {sid} (independent sub-agent)"})
+json.dump(W, open("/verif/witnesses/witnesses.json", "w"), indent=1)
